@@ -119,6 +119,8 @@ def literal(decl) -> str:
         s = f"entrypoint {decl['on']}.{decl['name']}"
         for d in decl.get("dirs", []):
             s += " " + directive(d)
+        if decl.get("multiline"):
+            return "\n  " + s + "\n"
         return s
     head = f"{k} {decl['on']}.{decl['name']}"
     if k == "pointer":
